@@ -41,7 +41,7 @@ CHECKS = {
     note="Termination of the cleanup loops not proved. Deque as multiset, heap as set with arbitrary top (over-approximations of the containers)."),
  "C14": dict(
     engine="E1+E3", category="other", design_ref="DESIGN.md 4/C14, 3 (K14)",
-    technique="CBMC DFCC loop contracts on the extracted SPTree::create_candidate_cycles (emission iff-condition, recorded weight) + bounded enforcement of the collection contracts (soundness of each candidate, nesting, sufficiency by greedy GF(2) selection against the brute-force optimum)",
+    technique="CBMC DFCC loop contracts on the extracted SPTree::create_candidate_cycles (emission iff-condition, recorded weight) + bounded enforcement of the collection contracts (soundness of each candidate, nesting, sufficiency by greedy GF(2) selection against the brute-force optimum); loop contracts with quantified invariants on the extracted HortonCyclesBuilder / FVSCyclesBuilder (collection = concatenation of the trees' candidate lists)",
     text="create_candidate_cycles proved against the tree tables (small caps); soundness of whole collections, nesting and sufficiency are a bounded stand-in: all labelled graphs n<=6 (unit + seeded weights), all weightings n<=3/4, tie-heavy families, seeded random graphs.",
     note="Exact-domain weights only; builders are Boost.Graph templates outside CBMC's reach."),
  "C16": dict(
